@@ -401,6 +401,34 @@ theorem decode_encode_prefix (buf : List Nat) (size : Nat) (pre suf : List Op) (
   exact run_decode _ hBt _ _ (fun _ _ => rfl) hBy pre e0 _ ri0 hl1
     (by subst he0; exact decInit_spec _ hBt _ buf size) hnP herrP (b3 _ _ hBy hc) (b4 _ _ hr)
 
+/-- What a successful `encodeAll` provides for any decoder-side argument: the finished stream is made of
+    bytes and satisfies both containments for the encoder state reached before `ec_enc_done`. -/
+theorem encodeAll_facts (buf : List Nat) (size : Nat) (ops : List Op) (hs : size ≤ buf.length)
+    (hb : BytesOk buf) (hl : LegalRun (encInit buf size) ops)
+    (hn : (encodeAll buf size ops).nbitsTotal < 4294967296)
+    (herr : (encodeAll buf size ops).error = 0) :
+    BytesOk ((encodeAll buf size ops).buf.take (encodeAll buf size ops).storage) ∧
+    (encRun (encInit buf size) ops).nbitsTotal < 4294967296 ∧ (encRun (encInit buf size) ops).error = 0 ∧
+    Contains ((encodeAll buf size ops).buf.take (encodeAll buf size ops).storage) (encodeAll buf size ops).storage
+      (encRun (encInit buf size) ops) ∧
+    RawC ((encodeAll buf size ops).buf.take (encodeAll buf size ops).storage) (encodeAll buf size ops).storage
+      (encRun (encInit buf size) ops) := by
+  unfold encodeAll at hn herr ⊢
+  have ri0 := runInv_encInit buf size hs hb
+  generalize encInit buf size = e0 at *
+  have herrF : (encRun e0 ops).error = 0 := by
+    apply Classical.byContradiction; intro hne
+    exact encDone_error_mono _ hne herr
+  have hnF : (encRun e0 ops).nbitsTotal < 4294967296 := by
+    have := encDone_nbitsTotal (encRun e0 ops); omega
+  obtain ⟨_, riF, _, _, _⟩ := run_back ops e0 ri0 hl hnF herrF
+  obtain ⟨_, d1, d2, d3, d4, d5⟩ := encDone_spec (encRun e0 ops) riF.inv riF.raw riF.bytes hnF herr
+  generalize encDone (encRun e0 ops) = eD at *
+  rw [d1]
+  refine ⟨bytesOk_take d3 _, hnF, herrF, ?_, ?_⟩
+  · unfold Contains at d4 ⊢; rw [codeVal_take]; exact d4
+  · unfold RawC at d5 ⊢; rw [tailVal_take]; exact d5
+
 /-- **Decoder inverts encoder.**  For every list of operations (any interleaving of range-coded
     symbols, `ec_enc_uint`, raw bits and `ec_enc_shrink`), legal where applied, written into a buffer
     of any size: if `ec_enc_done` leaves `error = 0`, decoding the first `storage` bytes with the same
